@@ -27,9 +27,15 @@ LINKS = {
     "otherfield": ("cut", ["ob{n} = Obj()", "ob{n}.g = 'c'", "ob{n}.f = {i}", "{o} = ob{n}.g"]),
     "othervar": ("cut", ["un{n} = {i}", "{o} = 'c'"]),
     "otherarg": ("cut", ["{o} = second({i}, 'c')"]),
+    # a helper writes the value into a field that already exists on the object; read back directly / through a helper
+    "helperfield": ("carry", ["pb{n} = PreBox()", "setf(pb{n}, {i})", "{o} = pb{n}.v"]),
+    "helperfield-get": ("carry", ["pb{n} = PreBox()", "setf(pb{n}, {i})", "{o} = getf(pb{n})"]),
+    # the value reaches the next statement on one of two reaching definitions only
+    "branch-overwrite": ("carry", ["{o} = 'c'", "if cond:", "    {o} = {i}"]),
 }
 LINK_ORDER = list(LINKS)
-QUICK_LINKS = ["copy", "binop", "call", "field", "elem", "dict", "global", "method", "branch", "loop1", "over", "otherobj", "othervar", "otherarg"]
+QUICK_LINKS = ["copy", "binop", "call", "field", "elem", "dict", "global", "method", "branch", "loop1", "over", "otherobj", "othervar", "otherarg",
+               "helperfield", "helperfield-get", "branch-overwrite"]
 
 LIB = '''def ident(p):
     return p
@@ -42,6 +48,13 @@ class Box:
         self.v = v
     def get(self):
         return self.v
+class PreBox:
+    def __init__(self):
+        self.v = None
+def setf(b, x):
+    b.v = x
+def getf(b):
+    return b.v
 G = ['c']
 def setg(v):
     G[0] = v
@@ -60,6 +73,8 @@ class Prov:
         return 'secret'
 class Db:
     def execute(self, q):
+        return None
+    def note(self, a, b):
         return None
 prov = Prov()
 db = Db()
@@ -110,15 +125,29 @@ def build(chain, source_kind="call", sink_kind="call", placement="top", layout="
         body.append(f"db.execute({var})  #K")
     elif sink_kind == "call-arg1":
         body.append(f"snk2('c', {var})  #K")
+    elif sink_kind == "receiver":
+        body.append(f"rcv = {var}")
+        body.append("rcv.unlink()  #K")          # the sink rule designates the receiver of the method call
+    elif sink_kind == "receiver-cut":
+        body.append(f"rcv = Obj()")
+        body.append(f"rcv.unlink({var})  #K")    # the tainted value is an argument, the rule designates the receiver
+    elif sink_kind == "varargs-cut":
+        body.append(f"collect({var}, 2)")                       # the tainted value binds to p, the sink reads *rest
+    elif sink_kind == "methodarg-cut":
+        body.append("wv = 'c'")
+        body.append(f"db.note({var}, wv)")                      # a method call with a tainted and an untainted argument variable
+        body.append("snk(wv)  #K")
     elif sink_kind == "kwcallee":
         body.append(f"handle(payload={var}, mode=1)")
     elif sink_kind == "kwcallee-cut":
         body.append(f"handle(payload='c', mode={var})")        # the tainted value goes to the parameter that is NOT sunk
-    header = SITES + (LIB if layout == "one" else "from lib import ident, second, Obj, Box, setg, getg\n")
+    header = SITES + (LIB if layout == "one" else "from lib import ident, second, Obj, Box, setg, getg, PreBox, setf, getf\n")
     if source_kind == "helper-early":
         header += "def fetch_early(flag):\n    t = src()  #S\n    if flag:\n        return t\n    return 'c'\n"
     if source_kind == "helper-twice":
         header += "def fetch():\n    t = src()  #S\n    return t\n"
+    if sink_kind == "varargs-cut":
+        header += "def collect(p, *rest):\n    snk(rest)  #K\n    return p\n"
     if sink_kind in ("kwcallee", "kwcallee-cut"):
         header += "def handle(mode, payload):\n    snk(payload)  #K\n    return mode\n"
     entry = None
@@ -149,7 +178,11 @@ def rules(source_kind, sink_kind, lang="python", extra_source=None, extra_sink=N
     snk = {"call": {"operation": "call_stmt", "name": "snk", "target": ["\\%arg" + str(sink_arg)], "vuln_type": "x"},
            "kwcallee": {"operation": "call_stmt", "name": "snk", "target": ["\\%arg" + str(sink_arg)], "vuln_type": "x"},
            "kwcallee-cut": {"operation": "call_stmt", "name": "snk", "target": ["\\%arg" + str(sink_arg)], "vuln_type": "x"},
+           "varargs-cut": {"operation": "call_stmt", "name": "snk", "target": ["\\%arg" + str(sink_arg)], "vuln_type": "x"},
+           "methodarg-cut": {"operation": "call_stmt", "name": "snk", "target": ["\\%arg" + str(sink_arg)], "vuln_type": "x"},
            "call-arg1": {"operation": "call_stmt", "name": "snk2", "target": ["\\%arg" + str(sink_arg)], "vuln_type": "x"},
+           "receiver": {"operation": "object_call", "name": "rcv.unlink", "target": ["\\%receiver"], "vuln_type": "x"},
+           "receiver-cut": {"operation": "object_call", "name": "rcv.unlink", "target": ["\\%receiver"], "vuln_type": "x"},
            "method": {"operation": "object_call", "name": "db.execute", "target": ["\\%arg" + str(sink_arg)], "vuln_type": "x"}}[sink_kind]
     if extra_source:
         src = dict(src, **extra_source)
@@ -214,13 +247,22 @@ def cpython_truth(prog):
         def execute(self, q):
             if isinstance(q, T):
                 hits.add((state["src_line"], caller_line()))
+
+        def note(self, a, b):
+            return None
     # blank out the site definitions of the program text (keep line numbers), provide instrumented ones
     n_sites = len(SITES.splitlines())
     lines = text.splitlines()
     lines[:n_sites] = [""] * n_sites
     if prog["layout"] == "two":
         lines[n_sites] = ""          # the import line
-    env = {"src": src, "snk": snk, "snk2": snk2, "prov": Prov(), "db": Db(), "cond": True}
+    import re
+
+    def recv_unlink(v, *a):
+        if isinstance(v, T):
+            hits.add((state["src_line"], caller_line()))
+    lines = [re.sub(r"^(\s*)rcv\.unlink\((.*)\)", lambda m: f"{m.group(1)}recv_unlink(rcv{', ' + m.group(2) if m.group(2) else ''})", l) for l in lines]
+    env = {"src": src, "snk": snk, "snk2": snk2, "prov": Prov(), "db": Db(), "cond": True, "recv_unlink": recv_unlink}
     exec(compile(LIB, "<lib>", "exec"), env)
     exec(compile("\n".join(lines) + "\n", "<main>", "exec"), env)
     if prog["entry"]:
